@@ -33,8 +33,8 @@ CHECKS = {
   technique="Lean 4 proof (Int64 loops refine unbounded-integer reference, simulation relation under saturation) + correspondence + CPython oracle",
   ref="C05"),
  "C06": dict(
-  text="Lean 4 theorems over the model of the const evaluator (eval_const_expr: literals, const references, unary/binary operators, string concatenation, membership, indexing, slicing with all bound combinations; eval_const_by_name's in-progress stack) and a run-time semantics of the same expressions built from the C04/C05 kernels: `const_value_sound` — by structural induction over initializers of any shape and depth, whenever the compiler records a value for an initializer, evaluating the same expression in a function body yields exactly that value (incl. short-circuit and/or, unknown slice bounds); `index_error_agrees` / `runtime_index_error_reported` / `slice_step_zero_agrees` — compile-time IndexError / zero-step ValueError coincide with the run-time ones; `static_fold_sound` — concat! folding of &'static str chains denotes the run-time concatenation; `ok_implies_no_repeat`, `cycle_is_rejected`, `never_out_of_fuel`, `resolution_terminates` — for every dependency graph the resolution ends with a verdict and a reachable cycle is never accepted.",
-  note="Float arithmetic is executed, not reasoned about. Types (incl. the syntactic `**` rule) and error classes are tied, not proved. Emission of consts as Rust const expressions is covered by the compiled-const stream only; most operators in const context do not build at all (C02). Two fix: commits (unknown slice bound treated as omitted; nested static string addition not folded).",
+  text="Lean 4 theorems over the model of the const evaluator (eval_const_expr: literals, const references, unary/binary operators, string concatenation, membership, indexing, slicing with all bound combinations; eval_const_by_name's in-progress stack) and a run-time semantics of the same expressions built from the C04/C05 kernels: `const_value_sound` — by structural induction over initializers of any shape and depth, whenever the compiler records a value for an initializer, evaluating the same expression in a function body yields exactly that value (incl. short-circuit and/or, unknown slice bounds); `index_error_agrees` / `runtime_index_error_reported` / `slice_step_zero_agrees` — compile-time IndexError / zero-step ValueError coincide with the run-time ones; `const_type_sound` — the type decided at compile time (incl. the syntactic `**` rule) is the type of the run-time value; `static_fold_sound` — concat! folding of &'static str chains denotes the run-time concatenation; `ok_implies_no_repeat`, `cycle_is_rejected`, `never_out_of_fuel`, `resolution_terminates` — for every dependency graph the resolution ends with a verdict and a reachable cycle is never accepted.",
+  note="Float arithmetic is executed, not reasoned about. Error classes are tied, not proved. Emission of consts as Rust const expressions is covered by the compiled-const stream only; most operators in const context do not build at all (C02). Two fix: commits (unknown slice bound treated as omitted; nested static string addition not folded).",
   technique="Lean 4 proof (structural induction over initializer expressions; invariants of the dependency DFS with a decreasing measure) + checker / compiled-program correspondence + value-agreement oracle",
   ref="C06"),
  "C07": dict(
@@ -103,7 +103,7 @@ CHECKS = {
   technique="Lean 4 proof (induction over documents, loop invariants) + exhaustive small-document correspondence + counting oracle",
   ref="C19"),
  "C20": dict(
-  text="Lean 4 theorems over a value model of models/classes (int, bool, str, float bits, Option, List, Dict[str,·], nested structs with ordered named fields) and abstract JSON: `roundtrip` — by mutual structural induction, decode t (encode v) = v for every value of every well-formed type at any nesting depth (struct fields found by name among distinct names, Option as value-or-null over non-option payloads); `json_field_names` (exactly the declared names, in declaration order) and the type-mapping rows; `eq_iff_structural` (== holds iff the values are identical field by field, at any depth), `eq_fields`; `ord_lexicographic` (the first differing field in declaration order decides) with the swap laws of the leaf orders; `hash_respects_eq` (equal values feed the hasher identical input); `derives_closed` / `derives_kept` — for every subset of the documented derives the emitted #[derive] list satisfies rustc's supertrait requirements and keeps what the user wrote.",
+  text="Lean 4 theorems over a value model of models/classes (int, bool, str, float bits, Option, List, Dict[str,·], nested structs with ordered named fields) and abstract JSON: `roundtrip` — by mutual structural induction, decode t (encode v) = v for every value of every well-formed type at any nesting depth (struct fields found by name among distinct names, Option as value-or-null over non-option payloads); `json_field_names` (exactly the declared names, in declaration order) and the type-mapping rows; `eq_iff_structural` (== holds iff the values are identical field by field, at any depth), `eq_fields`; `ord_lexicographic` (the first differing field in declaration order decides), `cmpV_swap` / `lt_iff_gt` / `cmpV_refl_of_eq` (a < b iff b > a, at any depth); `hash_respects_eq` (equal values feed the hasher identical input); `derives_closed` / `derives_kept` — for every subset of the documented derives (no hypothesis since the PartialOrd fix) the emitted #[derive] list satisfies rustc's supertrait requirements and keeps what the user wrote.",
   note="serde/serde_json and rustc's derive macros are trusted to implement the contract the model states; the repo-specific part (derive list, attributes, field naming, to_json/from_json glue, json_stringify builtin) is tied by compiling and running generated programs. One fix: commit (`.clone()` rejected by the checker). Findings outside this check's streams are listed in DESIGN.md (d[model_key] read needs Display; sorted(List[Model]) rejected).",
   technique="Lean 4 proof (mutual structural induction over nested values/types; finite case analysis for derive subsets) + compiled-program correspondence + Python (json, tuple order) oracle",
   ref="C20"),
